@@ -130,7 +130,8 @@ def concrete_doc(d, m):
         v = d[1]
         if isinstance(v, TokStr):
             from mirsym.values import STRLEN
-            return {'id': m.eval(v.id, model_completion=True).as_long(), 'len': m.eval(STRLEN(v.id), model_completion=True).as_long()}
+            ln = m.eval(STRLEN(v.id), model_completion=True).as_long()
+            return '' if ln == 0 else {'id': m.eval(v.id, model_completion=True).as_long(), 'len': ln}
         return v
     if k == 'uuid':
         u = d[1]
